@@ -312,16 +312,47 @@ def code_objects_of(files):
 _instrumented = []
 
 
-def instrument(modules):
-    """Enable LINE events on every code object whose file is one of the given modules' files."""
+def _post_call_offsets(code):
+    """Offsets of the instructions that directly follow a call instruction and do not start a line. CPython 3.12 looks at its
+    eval breaker when a call instruction completes, so another thread may run between the call and the instruction that uses its
+    result (`self.cache = tuple(self.items)`: after tuple() returned, before the store). Line starts are left out: the LINE event
+    there is a switch point already."""
+    import dis
+    line_first = set()
+    for ins in dis.get_instructions(code):
+        if ins.starts_line is not None:
+            line_first.add(ins.offset)
+    out = set()
+    prev = None
+    for ins in dis.get_instructions(code):
+        if prev is not None and prev.opname in ("CALL", "CALL_FUNCTION_EX", "CALL_KW") and ins.offset not in line_first:
+            out.add(ins.offset)
+        if ins.opname not in ("CACHE", "EXTENDED_ARG"):
+            prev = ins
+    return frozenset(out)
+
+
+_post_call = {}  # code object -> offsets that are switch points
+
+
+def instrument(modules, post_call=False):
+    """Enable LINE events on every code object whose file is one of the given modules' files. With post_call=True the instruction
+    after every call instruction is a switch point as well (INSTRUCTION events; all other instructions are disabled on first sight)."""
     mon = sys.monitoring
     if mon.get_tool(TOOL) is None:
         mon.use_tool_id(TOOL, "vf-sched")
         mon.register_callback(TOOL, mon.events.LINE, _on_line)
+        mon.register_callback(TOOL, mon.events.INSTRUCTION, _on_instruction)
     files = [m.__file__ for m in modules]
     codes = code_objects_of(files)
     for c in codes:
-        mon.set_local_events(TOOL, c, mon.events.LINE)
+        ev = mon.events.LINE
+        if post_call:
+            offs = _post_call_offsets(c)
+            if offs:
+                _post_call[c] = offs
+                ev |= mon.events.INSTRUCTION
+        mon.set_local_events(TOOL, c, ev)
         _instrumented.append(c)
     return len(codes)
 
@@ -334,6 +365,19 @@ def _on_line(code, line):
     if me is None:
         return
     s.yield_point(me, "line", code, line)
+
+
+def _on_instruction(code, offset):
+    offs = _post_call.get(code)
+    if offs is None or offset not in offs:
+        return sys.monitoring.DISABLE
+    s = ACTIVE
+    if s is None:
+        return
+    me = s.ident_to_name.get(_thread.get_ident())
+    if me is None:
+        return
+    s.yield_point(me, "instr", code, "+%d" % offset)
 
 
 # --------------------------------------------------------------------------- the scheduler
@@ -527,7 +571,7 @@ class Scheduler(object):
             t = self.threads[me]
             t.events += 1
             self.steps += 1
-            if kind == "line":
+            if kind in ("line", "instr"):
                 self.idle_polls = 0
             if self.trace and self.trace[-1][0] == me:
                 self.trace[-1][1] += 1
